@@ -114,7 +114,9 @@ func keyValuesOf(fn *ssa.Function) []ssa.Value {
 	return out
 }
 
-func (c *Ctx) checkExactMatch(r *Result, rule string, fn *ssa.Function) { c.checkExactMatchOpt(r, rule, fn, true) }
+func (c *Ctx) checkExactMatch(r *Result, rule string, fn *ssa.Function) {
+	c.checkExactMatchOpt(r, rule, fn, true)
+}
 
 // checkExactMatchOpt: with needCompare unset only the negative part is applied (the function stores names, it is not
 // required to compare them).
